@@ -315,7 +315,7 @@ def fault_kind(f: dict) -> str:
     t = f.get("t")
     if t == "tree":
         j = str(f.get("junk", ""))
-        if f["op"] in ("replace", "merge"):
+        if f["op"] in ("replace", "merge", "rename-key"):
             return f"tree-{f['op']}:{j}"
         if f["op"] == "cycle":
             return f"tree-cycle:{f['what']}"
